@@ -161,7 +161,7 @@ impl<'a> PairFn for Corrupt<'a> {
         {
             let mut spec2 = (*st.spec).clone();
             spec2.init ^= 1; // different initial-state selector: same AIR shape, different statement encoding
-            let p2 = SpecPub { spec: Arc::new(spec2), values: pubs.values.clone() };
+            let p2 = SpecPub { spec: Arc::new(spec2), values: pubs.values.clone(), extra: vec![] };
             n_cases += 1;
             if verify_with::<B, H, Coin<H>>(honest.clone(), &p2, &lenient()) == VerifyOutcome::Accept {
                 // the other encoding describes the same constraints: the committed trace satisfies it too, so
@@ -176,7 +176,7 @@ impl<'a> PairFn for Corrupt<'a> {
             let mut spec3 = (*st.spec).clone();
             if let starkit::Rule::Pow { d, c } = spec3.rules[0] {
                 spec3.rules[0] = starkit::Rule::Pow { d, c: c + 1 };
-                let p3 = SpecPub { spec: Arc::new(spec3), values: pubs.values.clone() };
+                let p3 = SpecPub { spec: Arc::new(spec3), values: pubs.values.clone(), extra: vec![] };
                 n_cases += 1;
                 if verify_with::<B, H, Coin<H>>(honest.clone(), &p3, &lenient()) == VerifyOutcome::Accept {
                     out.violation(format!("{pname}: a proof is accepted for a different transition rule"), json!({"point": family::describe(&point)}));
